@@ -310,8 +310,61 @@ pub fn targeted() -> Vec<String> {
     v
 }
 
+/// fragments aimed at the consumers of a parsed recipe (grouping, listing, scaling, conversion): the same name
+/// with text and numeric amounts in either order, with units of several physical quantities, unknown units,
+/// ranges, fractions, locks; servings; mode switches that move definitions out of steps
+pub const CONSUMER_FRAGMENTS: &[&str] = &[
+    "@a{1%kg}", "@&a{some}", "@&a{2%l}", "@&a{1/2%cup}", "@&a{2-3%g}", "@a{big}", "@&a{3}", "@&a", "@a{=2%tsp}", "@&a{1%pinch}", "@&a{0%g}",
+    "#p{big}", "#&p{2}", "#&p{1}", "#p{2}", "#&p{few}", "#&p", "#&p{1-2}", "#&p{1/2}", "@-a{1}", "@?a{1%g}", "@a|x{1%°C}", "@&a{1%°F}",
+    "~t{1%min}", "~{1 1/2%h}", "5 min ", "text ", "\n\n", "= s\n", ">> servings: 2|4\n", ">> [mode]: components\n", ">> [mode]: all\n",
+    ">> [duplicate]: ref\n", "@a{1%kg}(n)", "@b{1e3%g}", "@&b{999999999999%lb}",
+];
+
+fn consumer_family(ctx: &mut Ctx, ps: &mut Parsers) {
+    use crate::gen::alphabet;
+    use crate::gen::recipe::{self as g, feat, GenOpts};
+    let frags: Vec<&str> = CONSUMER_FRAGMENTS.to_vec();
+    let maxlen = if ctx.is_thorough() { 3 } else { 2 };
+    let total = alphabet::count_upto(frags.len(), maxlen);
+    ctx.notes.insert("consumer_fragment_sequences".into(), total.into());
+    let all = Extensions::all().bits();
+    let mut s = String::new();
+    let mut idx = ctx.shard as u64;
+    while idx < total {
+        alphabet::nth(&frags, idx, &mut s);
+        // fragments are joined by a blank so that they stay separate components
+        let spaced = s.replace('}', "} ").replace(")@", ") @");
+        for (e, c) in [(all, "bundled"), (all, "empty")] {
+            check_case(ctx, ps, &Case::new("consumer_fragments", spaced.as_str(), e, c));
+        }
+        ctx.count("inputs_consumer_fragments");
+        idx += ctx.nshards as u64;
+    }
+    let n = ctx.budget(6_000, 600_000);
+    for k in 0..n {
+        let text = if k % 2 == 0 {
+            let len = ctx.rng.range(3, 9);
+            let mut t = String::new();
+            for _ in 0..len {
+                t.push_str(frags[ctx.rng.below(frags.len())]);
+                t.push(' ');
+            }
+            t
+        } else {
+            let seed = ctx.rng.next();
+            let mut r = crate::core::Rng::new(seed);
+            let spec = g::gen_spec(&mut r, &GenOpts::extended_mixed());
+            g::spell(&spec, seed, feat::ALL, 1 + (k % 3) as u32).text
+        };
+        let c = if ctx.rng.chance(3, 4) { "bundled" } else { "empty" };
+        check_case(ctx, ps, &Case::new("consumer_random", text.as_str(), all, c));
+        ctx.count("inputs_consumer_random");
+    }
+}
+
 pub fn run(ctx: &mut Ctx) {
     let mut ps = Parsers::new();
+    consumer_family(ctx, &mut ps);
     // targeted family under four configs
     let t = targeted();
     let cfgs: [(u32, &str); 4] = [
